@@ -298,8 +298,12 @@ def rule_b(ctx):
     ctx.floor(R + ".writes", 2)
     fb = m.func(IMR, "imread_from_bytes")
     sem = _bytes_cases(fb)
+    if sem is not None and (sem[0] or not sem[1]):
+        ctx.ob(R, fb.qname, "3 channels -> OpticalImage; rank 2 -> ScalarImage; single channel -> ScalarImage(squeezed); else raise", not sem[0], "; ".join(sem[0]), fb.node, evidence=True)
+        return
     if sem is not None:
-        ctx.ob(R, fb.qname, "3 channels -> OpticalImage; rank 2 -> ScalarImage; single channel -> ScalarImage(squeezed); else raise", not sem, "; ".join(sem), fb.node, evidence=True)
+        # right kinds in every case, but a data term this rule cannot compare with the documented one: not decided
+        ctx.ob(R, fb.qname, "3 channels -> OpticalImage; rank 2 -> ScalarImage; single channel -> ScalarImage(squeezed); else raise", False, "", fb.node)
         return
     am = AM(fb)
     arms = []
@@ -326,8 +330,11 @@ def rule_b(ctx):
 
 def _bytes_cases(fb):
     """Fold imread_from_bytes once per shape of the decoded array (the decoder is replaced by an object carrying only that shape):
-    list of disagreements with the documented mapping, or None when the function leaves the folding language."""
+    (contradictions, undecided) -- contradictions are cases whose outcome has the wrong *kind* (image class, raise vs. return, raw
+    BGR data handed to OpticalImage, channel axis kept); undecided are cases whose data term this rule cannot compare -- or None
+    when the function leaves the folding language."""
     from ..fold import Folder, Obj, Opaque, Raised, Refuse, Sym
+    from ..terms import nf
 
     def data_of(r):
         if not isinstance(r, Sym):
@@ -336,8 +343,8 @@ def _bytes_cases(fb):
         if img is None and r.args:
             img = r.args[0]
         return r.fn.split(".")[-1], img
-    bad = []
-    for shape, want in (((5, 7), "scalar"), ((5, 7, 3), "optical"), ((5, 7, 1), "squeezed"), ((5, 7, 4), "raise"), ((5, 7, 2), "raise"), ((5,), "raise"), ((5, 7, 3, 2), "raise")):
+    bad, und = [], []
+    for shape, want in (((5, 7), "scalar"), ((5, 7, 3), "optical"), ((5, 7, 1), "squeezed"), ((5, 7, 4), "raise"), ((5, 7, 2), "raise"), ((5, 7, 3, 2), "raise")):
         dec = Obj("decoded", {"shape": shape, "ndim": len(shape)})
         fo = Folder(symbolic=True)
         fo.func_stack.append(fb.node)
@@ -353,21 +360,33 @@ def _bytes_cases(fb):
         kind, img = data_of(r)
         if kind is None:
             return None
+        t = nf(img)
         if want == "raise":
             bad.append(f"decoded shape {shape}: returns {kind} instead of raising")
         elif want == "scalar":
-            if not (kind == "ScalarImage" and img is dec):
-                bad.append(f"decoded shape {shape}: returns {kind}(img={img!r}), not ScalarImage of the decoded array")
+            if kind != "ScalarImage":
+                bad.append(f"decoded shape {shape}: returns {kind}, not ScalarImage")
+            elif not (img is dec or t in ("reshapeC(<decoded>, (5, 7))", "np.squeeze(<decoded>)")):
+                und.append(f"decoded shape {shape}: ScalarImage(img={t})")
         elif want == "optical":
-            conv = isinstance(img, Sym) and img.fn == "cv2.cvtColor" and len(img.args) == 2 and img.args[0] is dec and getattr(img.args[1], "label", "") == "cv2.COLOR_BGR2RGB"
-            if not (kind == "OpticalImage" and conv):
-                bad.append(f"decoded shape {shape}: returns {kind}(img={img!r}), not OpticalImage of the BGR->RGB converted array")
+            if kind != "OpticalImage":
+                bad.append(f"decoded shape {shape}: returns {kind}, not OpticalImage")
+            elif img is dec:
+                bad.append(f"decoded shape {shape}: OpticalImage receives the decoded (BGR) array without conversion to RGB")
+            elif not (isinstance(img, Sym) and img.fn == "cv2.cvtColor" and len(img.args) == 2 and img.args[0] is dec and getattr(img.args[1], "label", "") == "cv2.COLOR_BGR2RGB"):
+                if isinstance(img, Sym) and img.fn == "cv2.cvtColor" and len(img.args) == 2 and img.args[0] is dec:
+                    bad.append(f"decoded shape {shape}: converted with {nf(img.args[1])}, not cv2.COLOR_BGR2RGB")
+                else:
+                    und.append(f"decoded shape {shape}: OpticalImage(img={t})")
         else:
-            sq = isinstance(img, Sym) and (img.fn in ("decoded[..., 0]", "decoded[:, :, 0]", "decoded[:, :, -1]", "decoded[..., -1]")
-                                           or (img.fn == "np.squeeze" and img.args and img.args[0] is dec))
-            if not (kind == "ScalarImage" and sq):
-                bad.append(f"decoded shape {shape}: returns {kind}(img={img!r}), not ScalarImage of the array without its channel axis")
-    return bad
+            if kind != "ScalarImage":
+                bad.append(f"decoded shape {shape}: returns {kind}, not ScalarImage")
+            elif img is dec:
+                bad.append(f"decoded shape {shape}: the channel axis of length 1 is kept")
+            elif t not in ("<decoded>[..., 0]", "<decoded>[:, :, 0]", "<decoded>[:, :, -1]", "<decoded>[..., -1]", "np.squeeze(<decoded>)", "np.squeeze(<decoded>, axis=-1)",
+                           "np.squeeze(<decoded>, axis=2)", "reshapeC(<decoded>, (5, 7))"):
+                und.append(f"decoded shape {shape}: ScalarImage(img={t})")
+    return bad, und
 
 
 def savable(m, notes=None):
